@@ -1,6 +1,7 @@
 # C10 -- recipient computation (Recipients.tla)
 import json, shutil
 import vlib
+from props import delivcommon
 
 
 def judge(run, trace_path, label):
@@ -64,6 +65,7 @@ def check(run):
                         "the class (all 10 plain types when <=1 entry, rotating otherwise); V: %d random values with <=6 entries per "
                         "list over 5 identities; every event judged by RecipientsTrace.tla against Outcome()" % (
                             "; thorough adds <=3 entries over an 8-entry pool and <=4 over a 5-entry pool" if thorough else "", nr))
+    delivcommon.run_delivery(run, run.path("cases0.ndjson"))
     run.assumptions += ["the audience field after the call is not compared (only: a blocked addressee is gone from it)",
                         "addressees carry ids; typed-nil entries belong to C20"]
 
